@@ -733,6 +733,7 @@ func (ts *TermStore) BoolToBV(b *Term, w int) *Term {
 type smtPrinter struct {
 	defined map[int]bool
 	out     *strings.Builder
+	lemmas  []string // valid bit-vector facts about freshly defined terms (help the solver, never change satisfiability)
 }
 
 func constStr(t *Term) string {
@@ -816,6 +817,18 @@ func (p *smtPrinter) define(t *Term) string {
 			p.out.WriteByte(')')
 		}
 		p.out.WriteString(")\n")
+		switch cur.Op {
+		case OpUrem:
+			// y != 0  =>  x urem y < y ; always x urem y <= x
+			x, y := p.ref(cur.Args[0]), p.ref(cur.Args[1])
+			p.lemmas = append(p.lemmas, fmt.Sprintf("(assert (or (= %s %s) (bvult t!%d %s)))\n(assert (bvule t!%d %s))\n",
+				y, constStr(&Term{Op: OpConst, W: cur.W, Val: 0}), cur.ID, y, cur.ID, x))
+		case OpUdiv:
+			// y != 0  =>  x udiv y <= x
+			x, y := p.ref(cur.Args[0]), p.ref(cur.Args[1])
+			p.lemmas = append(p.lemmas, fmt.Sprintf("(assert (or (= %s %s) (bvule t!%d %s)))\n",
+				y, constStr(&Term{Op: OpConst, W: cur.W, Val: 0}), cur.ID, x))
+		}
 	}
 	return p.ref(t)
 }
